@@ -14,7 +14,7 @@ def entries(exclude_ack=True):
     return out
 
 
-def build(entry, ch, acc, max_faults=4, shapes=None, flavor='plain', avoid='~*:^', kinds=None, hostile_values=None, envelope=0.0, malformed=0.0, big=0.0):
+def build(entry, ch, acc, max_faults=4, shapes=None, flavor='plain', avoid='~*:^', kinds=None, hostile_values=None, envelope=0.0, malformed=0.0, big=0.0, keep_empty_tail=0.0):
     """-> (doc, [expectations]) or None"""
     shape = ch.choice(shapes or [(1, 1, 1), (1, 1, 2), (1, 1, 3), (1, 2, 1), (1, 2, 2), (2, 1, 1), (2, 2, 1), (1, 3, 2)])
     kw = dict(p_seg=ch.choice([.2, .4, .7]), p_loop=ch.choice([.15, .3]), max_rep=2, shape=shape, max_segs=250)
@@ -24,7 +24,9 @@ def build(entry, ch, acc, max_faults=4, shapes=None, flavor='plain', avoid='~*:^
     doc = None
     for attempt in range(5):
         try:
-            doc = docgen.build_doc(entry, ch, values=docgen.Values(avoid, flavor, entry['icvn']), **kw)
+            vals_ = docgen.Values(avoid, flavor, entry['icvn'])
+            vals_.keep_empty_tail = keep_empty_tail
+            doc = docgen.build_doc(entry, ch, values=vals_, **kw)
             break
         except docgen.GenFail:
             kw = dict(kw, p_loop=kw['p_loop'] * .4)
